@@ -139,3 +139,13 @@ def install(t0=T0):
                 pass
             loop.close()
             asyncio.set_event_loop(old_loop)
+
+
+def workdir():
+    """scratch directory for real files a check needs (removed by the check itself)"""
+    import os
+    base = os.environ.get("VERIF_TMP") or os.path.join(
+        os.path.dirname(os.path.dirname(os.path.abspath(__file__))), ".work")
+    d = os.path.join(base, str(os.getpid()))
+    os.makedirs(d, exist_ok=True)
+    return d
